@@ -206,6 +206,13 @@ def rule_entry(R):
                      "the LIVE==false branch of Connection::%s must return %s (found %s)"
                      % (n, want, ", ".join(show(v) for v in vals) or "nothing"), where=code.line(src))
     R.floor("dead-branch", nsw, 5, "LIVE tests")
+    # can_publish() is false for good on a dead handle: its value is gated by LIVE
+    if "can_publish" not in cm:
+        raise AnchorLost("Connection::can_publish")
+    cb, ccode = cm["can_publish"]
+    gated = [e for e in roles.live_true_edges(f, ccode) if e[2] is not None]
+    R.ob("canpub/live-gated", bool(gated),
+         "Connection::can_publish must test LIVE (a dead handle reports false for every QoS)", where=cb.span)
 
 
 def nsw_index(code, bb):
@@ -390,7 +397,7 @@ def rule_once(R):
             continue
         n += 1
         ok = b.name == ccode.name and kind == "aggregate"
-        R.ob("once/%s" % b.name, ok,
+        R.ob("once/%s" % b.fn_name, ok,
              "LIVE may only become true by constructing the Connection in Session::connect (a latched handle "
              "cannot be revived); found a %s in %s" % (kind, b.name), where=b.line(bb))
     R.exact("once", n, 1, "sites that make LIVE true")
